@@ -209,6 +209,7 @@ func TestFunctionBodySyntaxVersusUnsupported(t *testing.T) {
 		`BEGIN CASE WHEN a THEN RETURN TRUE; END; END;`:      "syntax", // CASE without END CASE
 		`BEGIN CASE WHEN a THEN RETURN TRUE; END IF; END;`:   "syntax",
 		`BEGIN CASE END CASE; END;`:                          "syntax",
+		`BEGIN CASE ELSE RETURN FALSE; END CASE; END;`:       "syntax", // no WHEN at all
 		`BEGIN IF a THEN RETURN TRUE; END; END;`:             "syntax", // IF without END IF
 		`BEGIN IF a THEN RETURN TRUE; END CASE; END;`:        "syntax",
 		`BEGIN IF a RETURN TRUE; END IF; END;`:               "syntax",
